@@ -207,6 +207,8 @@ class C14(Property):
         "Flatland.C14.Proofs.eval_denotes_raw",
         "Flatland.C14.Proofs.C14_full_fails",
         "Flatland.C14.Proofs.tokenize_print_names",
+        "Flatland.C14.Proofs.tokenize_print",
+        "Flatland.C14.Proofs.find_print_denotes",
     ]
     generated_obligations = []
     trusted_base = [
